@@ -68,11 +68,6 @@ func (ex *Exec) assumeFieldInvAll(st *State, name, term string) {
 	if !ok {
 		return
 	}
-	// reference 0 is nil: no object lives there; its "fields" read as zero values (a real execution would
-	// have panicked before using them)
-	if s := ex.svSort(name); s.K == KArr && !ex.inFieldInv {
-		ex.vc.assume("(= (select " + term + " 0) " + ex.w.Zero(s.Elem) + ")")
-	}
 	// heap closure: a reference stored in a field is an allocated object (or nil)
 	if s := ex.svSort(name); s.K == KArr && s.Elem.K == KRef && !ex.inFieldInv {
 		ex.regSV("alloc", SInt)
@@ -80,6 +75,15 @@ func (ex *Exec) assumeFieldInvAll(st *State, name, term string) {
 		al := ex.get(st, "alloc")
 		ex.inFieldInv = false
 		ex.vc.assume("(forall ((q_o Int)) (! (and (>= (select " + term + " q_o) 0) (<= (select " + term + " q_o) " + al + ")) :pattern ((select " + term + " q_o))))")
+	}
+	if s := ex.svSort(name); ex.safety && s.K == KArr && s.Elem.K == KSeq && (s.Elem.Elem.K == KAny || s.Elem.Elem.K == KRef && s.Elem.Elem.Name != "" && s.Elem.Elem.Name != "cell") && !ex.inFieldInv {
+		// safety mode: slices of pointers / interface values stored in fields hold no nil (checked at every store)
+		el := s.Elem.Elem
+		nn := "(> " + sqNth("(select "+term+" q_o)", "q_k", el) + " 0)"
+		if el.K == KAny {
+			nn = "(not (= " + sqNth("(select "+term+" q_o)", "q_k", el) + " anyNil))"
+		}
+		ex.vc.assume("(forall ((q_o Int) (q_k Int)) (! (=> (and (<= 0 q_k) (< q_k " + sqLen("(select "+term+" q_o)", el) + ")) " + nn + ") :pattern (" + sqNth("(select "+term+" q_o)", "q_k", el) + ")))")
 	}
 	invs := ex.cs.FieldInvs[sf[0]+"."+sf[1]]
 	if len(invs) == 0 || ex.inFieldInv {
@@ -368,6 +372,13 @@ func (fr *Frame) execInstr(ins ssa.Instruction) {
 		val := vc.define("mapget", ms.Val, ite(dom, raw, w.Zero(ms.Val)))
 		if ms.Val.K == KRef {
 			ex.assumeAllocated(st, val)
+			if ex.safety && ms.Val.Name != "" && ms.Val.Name != "cell" {
+				// maps of pointers hold no nil values (checked at every update in safety mode)
+				vc.assume(imp(dom, "(> "+raw+" 0)"))
+			}
+		}
+		if ms.Val.K == KAny && ex.safety {
+			vc.assume(imp(dom, not(eq(raw, "anyNil"))))
 		}
 		if i.CommaOk {
 			fr.setVal(i, &Val{S: &Sort{K: KTuple}, Tup: []*Val{{T: val, S: ms.Val}, {T: dom, S: SBool}}})
@@ -380,6 +391,12 @@ func (fr *Frame) execInstr(ins ssa.Instruction) {
 		v := fr.val(i.Value)
 		ms := w.SortOf(i.Map.Type())
 		fr.safety("nil-map-write", ins, "(not (= "+m.T+" 0))", exprText(ex, ins))
+		if ms.Val.K == KRef && ms.Val.Name != "" && ms.Val.Name != "cell" {
+			fr.safety("nil-elem", ins, "(> "+v.T+" 0)", "map value "+exprText(ex, ins))
+		}
+		if ms.Val.K == KAny {
+			fr.safety("nil-elem", ins, not(eq(v.T, "anyNil")), "map value "+exprText(ex, ins))
+		}
 		dn, vn := ex.mapDomVar(ms), ex.mapValVar(ms)
 		ex.set(st, dn, "(store "+ex.get(st, dn)+" "+m.T+" (store (select "+ex.get(st, dn)+" "+m.T+") "+k.T+" true))")
 		ex.set(st, vn, "(store "+ex.get(st, vn)+" "+m.T+" (store (select "+ex.get(st, vn)+" "+m.T+") "+k.T+" "+v.T+"))")
@@ -404,6 +421,14 @@ func (fr *Frame) execInstr(ins ssa.Instruction) {
 			if n >= 0 && n < len(a.Ptr.ElemsOf.Elems) {
 				a.Ptr.ElemsOf.Elems[n] = v
 			}
+		}
+		if a.Ptr.Kind == "field" && ex.safety && a.Ptr.Sort.K == KSeq && (a.Ptr.Sort.Elem.K == KAny || a.Ptr.Sort.Elem.K == KRef && a.Ptr.Sort.Elem.Name != "" && a.Ptr.Sort.Elem.Name != "cell") {
+			el := a.Ptr.Sort.Elem
+			nn := "(> " + sqNth(v.T, "q_k", el) + " 0)"
+			if el.K == KAny {
+				nn = "(not (= " + sqNth(v.T, "q_k", el) + " anyNil))"
+			}
+			fr.safety("nil-elem", ins, "(forall ((q_k Int)) (=> (and (<= 0 q_k) (< q_k "+sqLen(v.T, el)+")) "+nn+"))", "elements of "+a.Ptr.Struct+"."+a.Ptr.Field)
 		}
 		if a.Ptr.Kind == "field" {
 			for k, inv := range ex.cs.FieldInvs[a.Ptr.Struct+"."+a.Ptr.Field] {
@@ -435,6 +460,13 @@ func (fr *Frame) execInstr(ins ssa.Instruction) {
 				}
 				if s.K == KAny {
 					vc.assume("(anyWF " + v.T + ")")
+				}
+				if x.Ptr.Kind == "field" && ex.safety {
+					for _, inv := range ex.cs.FieldAsms[x.Ptr.Struct+"."+x.Ptr.Field] {
+						env := &Env{ex: ex, vars: map[string]*Val{"$v": v, "$o": {T: x.Ptr.Ref, S: SRef(x.Ptr.Struct)}}, cur: st, old: st, fr: fr}
+						vc.assume(imp(fr.curReach, ex.trBool(inv.Expr, env)))
+						vc.note("assumed lifecycle/configuration fact: " + x.Ptr.Struct + "." + x.Ptr.Field + ": " + inv.Src)
+					}
 				}
 				if x.Ptr.Kind == "field" {
 					for _, inv := range ex.cs.FieldInvs[x.Ptr.Struct+"."+x.Ptr.Field] {
@@ -485,7 +517,9 @@ func (fr *Frame) execInstr(ins ssa.Instruction) {
 				es := s.Tuple[0]
 				fr.setVal(i, &Val{S: s, Tup: []*Val{fr.havocVal("recv", es), {T: vc.fresh("recvok", SBool), S: SBool}}})
 			} else {
-				fr.setVal(i, fr.havocVal("recv", s))
+				rv := fr.havocVal("recv", s)
+				fr.assumeNonNilReceived(rv)
+				fr.setVal(i, rv)
 			}
 		case token.XOR:
 			s := w.SortOf(i.Type())
@@ -615,6 +649,9 @@ func (fr *Frame) execInstr(ins ssa.Instruction) {
 		}
 		// index in range
 		vc.assume(fmt.Sprintf("(and (>= %s 0) (< %s %d))", v.Tup[0].T, v.Tup[0].T, len(i.States)))
+		for k := 2; k < len(v.Tup); k++ {
+			fr.assumeNonNilReceived(v.Tup[k])
+		}
 		fr.setVal(i, v)
 	case *ssa.Send:
 		fr.ghostSend(i)
@@ -910,11 +947,51 @@ func (fr *Frame) nextOp(i *ssa.Next) {
 	vv := vc.define("next_v", ms.Val, val)
 	if ms.Val.K == KRef {
 		ex.assumeAllocated(fr.cur, vv)
+		if ex.safety && ms.Val.Name != "" && ms.Val.Name != "cell" {
+			vc.assume(imp(ok, "(> "+vv+" 0)"))
+		}
+	}
+	if ms.Val.K == KAny && ex.safety {
+		vc.assume(imp(ok, not(eq(vv, "anyNil"))))
 	}
 	fr.setVal(i, &Val{S: s, Tup: []*Val{{T: ok, S: SBool}, {T: k, S: ms.Key}, {T: vv, S: ms.Val}}})
 }
 
+// assumeNonNilReceived: in safety mode values taken from channels are non-nil pointers / interfaces /
+// functions (every send in the package is checked for it).
+func (fr *Frame) assumeNonNilReceived(v *Val) {
+	ex := fr.ex
+	if !ex.safety || v == nil {
+		return
+	}
+	switch v.S.K {
+	case KRef:
+		ex.vc.assume("(> " + v.T + " 0)")
+	case KAny:
+		ex.vc.assume(not(eq(v.T, "anyNil")))
+	case KData:
+		// struct values carried by value: their pointer-like fields are non-nil too
+		if si := ex.w.datas[v.S.Name]; si != nil {
+			for _, f := range si.Fields {
+				sel := "(" + si.Name + "_" + f.Name + " " + v.T + ")"
+				if f.Sort.K == KRef && f.Sort.Name == "func" {
+					ex.vc.assume("(> " + sel + " 0)")
+				}
+			}
+		}
+	}
+}
+
 func (fr *Frame) ghostSend(i *ssa.Send) {
+	if fr.ex.safety {
+		x := fr.val(i.X)
+		switch x.S.K {
+		case KRef:
+			fr.safety("nil-elem", i, "(> "+x.T+" 0)", "value sent on channel "+i.Chan.Name())
+		case KAny:
+			fr.safety("nil-elem", i, not(eq(x.T, "anyNil")), "value sent on channel "+i.Chan.Name())
+		}
+	}
 	// channel send: ghost append to the channel's event log, if declared
 	fr.ex.vc.note("channel send: value handed to the receiving goroutine (no effect on local state)")
 }
